@@ -701,14 +701,20 @@ theorem applyRec_inv' (P : GParams) (h : WF P) (s : GState) (hs : Inv P s) (u : 
   cases hsis : P.sis with
   | true =>
     obtain ⟨links', hl, hinvL, hwdL, hmemL, hgetL⟩ := recSIS_links P h s hs u hu hsis
-    refine ⟨_, ?_, key St.S links' (by simp) (fun _ => rfl) hinvL hwdL hmemL hgetL _ _ _ _ _, ?_⟩
-    · simp only [applyRec, hinf', hsis, if_true, hl]; rfl
-    · simp [Chain.apply, hsis]
+    have e : applyRec P s u t = some { status := fset s.status u St.S, inf := inf', links := links',
+        times := t :: s.times, S := (hd s.S + 1) :: s.S, I := (hd s.I - 1) :: s.I, R := s.R,
+        log := (t, GEvent.recover u) :: s.log } := by
+      simp only [applyRec, hinf', hsis, if_true, hl]; rfl
+    exact ⟨_, e, key St.S links' (by simp) (fun _ => rfl) hinvL hwdL hmemL hgetL _ _ _ _ _,
+      by simp [Chain.apply, hsis]⟩
   | false =>
     obtain ⟨links', hl, hinvL, hwdL, hmemL, hgetL⟩ := recSIR_links P h s hs u hu
-    refine ⟨_, ?_, key St.R links' (by simp) (fun hc => by simp [hsis] at hc) hinvL hwdL hmemL hgetL _ _ _ _ _, ?_⟩
-    · simp only [applyRec, hinf', hsis, Bool.false_eq_true, if_false, hl]; rfl
-    · simp [Chain.apply, hsis]
+    have e : applyRec P s u t = some { status := fset s.status u St.R, inf := inf', links := links',
+        times := t :: s.times, S := hd s.S :: s.S, I := (hd s.I - 1) :: s.I, R := (hd s.R + 1) :: s.R,
+        log := (t, GEvent.recover u) :: s.log } := by
+      simp only [applyRec, hinf', hsis, Bool.false_eq_true, if_false, hl]; rfl
+    exact ⟨_, e, key St.R links' (by simp) (fun hc => by simp at hc) hinvL hwdL hmemL hgetL _ _ _ _ _,
+      by simp [Chain.apply, hsis]⟩
 
 theorem applyTrans_inv' (P : GParams) (h : WF P) (s : GState) (hs : Inv P s) (u v : Node) (t : Rat)
     (huv : (u, v) ∈ s.links.items) :
@@ -722,8 +728,11 @@ theorem applyTrans_inv' (P : GParams) (h : WF P) (s : GState) (hs : Inv P s) (u 
   obtain ⟨hwdI, hmemI, hgetI⟩ := LD.update_any s.inf inf' v (nodeW P v) hinf'
   have hinvI : LD.Inv inf' := LD.inv_update s.inf inf' v (nodeW P v) hs.infInv (nodeW_nonneg P h v) hinf'
   obtain ⟨links', hl, hinvL, hwdL, hmemL, hgetL⟩ := trans_links P h s hs u v huv
-  refine ⟨_, ?_, ?_, ?_⟩
-  · simp only [applyTrans, hinf', hl]; rfl
+  have e : applyTrans P s u v t = some { status := fset s.status v St.I, inf := inf', links := links',
+      times := t :: s.times, S := (hd s.S - 1) :: s.S, I := (hd s.I + 1) :: s.I,
+      R := (if P.sis then s.R else hd s.R :: s.R), log := (t, GEvent.transmit u v) :: s.log } := by
+    simp only [applyTrans, hinf', hl]; rfl
+  refine ⟨_, e, ?_, ?_⟩
   · refine ⟨hinvI, hinvL, hwdI.trans hs.infW, hwdL.trans hs.linkW, ?_, hmemL, ?_, hgetL, ?_⟩
     · intro a
       show a ∈ inf'.items ↔ (a ∈ P.nodes ∧ fset s.status v St.I a = St.I)
